@@ -81,4 +81,18 @@ Theorem C08_line_without_solution_gets_no_decision_F42 :
   outcome_of f42_run 0 = Some (WS_none 1) /\ decisions_of f42_run = [].
 Proof. exact line_without_solution_gets_no_decision_F42. Qed.
 
+(* END TO END, on the composed model Model/Format.v: format_model (the stage models folded over the stage list GENERATED from make_formatter,
+   from the input bytes to the output bytes; tied to the implementation byte for byte and stage by stage by unit e2e). The output ends with
+   the rendering of all tokens but Eof followed by exactly one configured newline, given the (decidable, monitored) shape of the Eof
+   line handed to the wrapper. *)
+From PasfmtVerif Require Import Model.Format Proofs.FormatProofs Proofs.FormatTotalProofs Proofs.FormatWrapProofs Proofs.FormatIgnoredProofs Proofs.FormatVerbatimProofs Proofs.FormatLayoutProofs Proofs.FormatRescanProofs Proofs.FormatContentProofs Proofs.FormatMLProofs Proofs.FormatContentMLProofs Proofs.FormatEofProofs.
+Theorem C08_format_ends_with_one_newline :
+  forall (alnum : bytes -> bool) (cfg : fconfig) (s out : bytes) (segs : list seg),
+  format_model alnum cfg s = inl out ->
+  lex_segments s = Some segs ->
+  eof_lines_ok segs ->
+  out =
+  recon (cfg_rs cfg) false (removelast (fm_final alnum cfg segs)) ++ rs_newline (cfg_rs cfg).
+Proof. exact format_ends_with_one_newline. Qed.
+
 
